@@ -3,7 +3,11 @@
     the Python method performs, in its order, with early exit on the first raising primitive.
     Whether a method starts with [self._cache = None] (the [@_invalidate_cache] decorator) is NOT
     hard-wired: it is read from [GenEditFacts.invalidates], regenerated from the source on every
-    run.  Queries answer from the memoised cache when present, else build it. *)
+    run.  Queries answer from the memoised cache when present, else build it.
+    The seven batch mutators ([bmut], [batch_with]) have the semantics of the form the extractor
+    found in the source ([GenEditFacts.batch_form]: plain fold of public single-item calls, or names
+    validated first); the cache is built by [build_cache] = arity sanity check + Core's
+    [create_cache]; get_fluxes / get_stoichiometries are queries like the others. *)
 From Coq Require Import ZArith List Bool.
 From MxlBase Require Import ListX.
 From Core Require Import Sort GenSortFacts FnLib Model Cache Query.
@@ -88,14 +92,29 @@ Inductive query :=
 | QRhs (vars : option (list (name * Z))) (t : Z)
 | QIc
 | QParVals
-| QDerParNames.
+| QDerParNames
+| QFluxes (vars : option (list (name * Z))) (t : Z)
+| QStoich (vars : option (list (name * Z))) (t : Z).
 
-Inductive op := Mut (m : mutator) | Ask (q : query).
+(** the batch forms: add_parameters(dict), remove_parameters(list), update_parameters(dict),
+    scale_parameters(dict), add_variables(dict), remove_variables(iterable, remove_stoichiometries),
+    update_variables(dict).  A dict argument is given as the list of pairs it is built from. *)
+Inductive bmut :=
+| AddPars (l : list (name * valia))
+| RemovePars (l : list name)
+| UpdatePars (l : list (name * valia))
+| ScalePars (l : list (name * Z))
+| AddVars (l : list (name * valia))
+| RemoveVars (l : list name) (remove_stoich : bool)
+| UpdateVars (l : list (name * valia)).
+
+Inductive op := Mut (m : mutator) | Bat (b : bmut) | Ask (q : query).
 
 Inductive answer :=
 | AIds (ids : list (name * kind))
 | APairs (l : list (name * Z))
 | ANames (l : list name)
+| ATable (tab : list (name * list (name * Z)))
 | AErr (e : err).
 
 Inductive outcome := Accepted | Rejected (e : err) | Answer (a : answer).
@@ -123,12 +142,34 @@ Definition strip_var_rxn (n : name) (r : reaction) : reaction :=
 Definition strip_var_sur (n : name) (s : surrogate) : surrogate :=
   mkSur (s_fn s) (s_args s) (s_out s) (map (fun kv => (fst kv, del n (snd kv))) (s_st s)).
 
+(** ---- _create_cache with its arity sanity check ---------------------------------------
+    [_check_function_arity(el.fn, len(el.args))] for the initial assignments, derived, reactions and
+    readouts, BEFORE the dependency sort (model.py:479-487; position pinned by
+    [arity_checked_before_sort]).  The library functions are plain positional functions: the number
+    of arguments fits exactly when [fsem] is defined on an argument list of that length.
+    ArityMismatchError is recorded as [EType] ("called with the wrong number of arguments", the
+    class Core.Model uses for that); what the pre-check adds is its POSITION: it fires before
+    MissingDependenciesError / CircularDependencyError and also for a readout that is never called. *)
+Definition fn_arity_ok (f : fnid) (args : list name) : bool :=
+  match FnLib.fsem f (map (fun _ => 0%Z) args) with Some _ => true | None => false end.
+Definition valia_arity_ok (v : valia) : bool :=
+  match v with Plain _ => true | IA f a => fn_arity_ok f a end.
+Definition arity_all_ok (m : model) : bool :=
+  forallb (fun kv => valia_arity_ok (snd kv)) (m_var m)
+  && forallb (fun kv => valia_arity_ok (snd kv)) (m_par m)
+  && forallb (fun kv => fn_arity_ok (d_fn (snd kv)) (d_args (snd kv))) (m_der m)
+  && forallb (fun kv => fn_arity_ok (r_fn (snd kv)) (r_args (snd kv))) (m_rxn m)
+  && forallb (fun kv => fn_arity_ok (d_fn (snd kv)) (d_args (snd kv))) (m_ro m).
+
+Definition build_cache (m : model) : res cache :=
+  if arity_all_ok m then create_cache FnLib.fsem FnLib.fsemN gen_sort_facts m else Err EType.
+
 (** get-or-create the cache (queries, scale_parameter on an assigned parameter) *)
 Definition ensure_cache (s : st) : res cache * st :=
   match s_cache s with
   | Some c => (Val c, s)
   | None =>
-    match create_cache FnLib.fsem FnLib.fsemN gen_sort_facts (s_m s) with
+    match build_cache (s_m s) with
     | Val c => (Val c, mkSt (s_ids s) (s_m s) (Some c))
     | Err e => (Err e, s)
     end
@@ -307,6 +348,98 @@ Definition mutate (s : st) (mu : mutator) : st * outcome :=
   let s0 := if invalidates (method_of mu) then mkSt (s_ids s) (s_m s) None else s in
   body 4 s0 mu.
 
+(** ---- batch forms --------------------------------------------------------------------- *)
+
+Definition batch_of (b : bmut) : batch :=
+  match b with
+  | AddPars _ => B_add_parameters | RemovePars _ => B_remove_parameters
+  | UpdatePars _ => B_update_parameters | ScalePars _ => B_scale_parameters
+  | AddVars _ => B_add_variables | RemoveVars _ _ => B_remove_variables
+  | UpdateVars _ => B_update_variables
+  end.
+
+(** dict(pairs): a repeated key keeps its first position and takes the last value *)
+Definition mkdict {A} (l : list (name * A)) : list (name * A) :=
+  fold_left (fun d kv => dset (fst kv) (snd kv) d) l [].
+
+(** the public single-item calls the loop of the batch method makes, in order *)
+Definition items (b : bmut) : list mutator :=
+  match b with
+  | AddPars l => map (fun kv => AddPar (fst kv) (snd kv)) (mkdict l)
+  | RemovePars l => map RemovePar l
+  | UpdatePars l => map (fun kv => UpdatePar (fst kv) (Some (snd kv))) (mkdict l)
+  | ScalePars l => map (fun kv => ScalePar (fst kv) (snd kv)) (mkdict l)
+  | AddVars l => map (fun kv => AddVar (fst kv) (snd kv)) (mkdict l)
+  | RemoveVars l rs => map (fun n => RemoveVar n rs) l
+  | UpdateVars l => map (fun kv => UpdateVar (fst kv) (snd kv)) (mkdict l)
+  end.
+
+(** for item in arg: self.<single>(item)  -- the first exception ends the loop *)
+Fixpoint run_items (s : st) (l : list mutator) : st * outcome :=
+  match l with
+  | [] => (s, Accepted)
+  | mu :: r => let '(s1, o) := mutate s mu in
+               match o with Accepted => run_items s1 r | _ => (s1, o) end
+  end.
+
+(** _check_new_ids: what _insert_id would raise for the first unusable name; inserts nothing *)
+Fixpoint check_new_ids (ns : list name) (ids : list (name * kind)) : option err :=
+  match ns with
+  | [] => None
+  | n :: r => if N.eqb n time_name then Some EKey
+              else if has n ids then Some EName else check_new_ids r ids
+  end.
+
+(** _check_known_names(names, container, unique) *)
+Fixpoint check_known {A} (ns : list name) (d : list (name * A)) (unique : bool) (seen : list name) : option err :=
+  match ns with
+  | [] => None
+  | n :: r => if negb (has n d) || (unique && memN n seen) then Some EKey
+              else check_known r d unique (n :: seen)
+  end.
+
+Definition validate (s : st) (b : bmut) : option err :=
+  match b with
+  | AddPars l => check_new_ids (keys (mkdict l)) (s_ids s)
+  | RemovePars l => check_known l (m_par (s_m s)) true []
+  | UpdatePars l => check_known (keys (mkdict l)) (m_par (s_m s)) false []
+  | ScalePars l => check_known (keys (mkdict l)) (m_par (s_m s)) false []
+  | AddVars l => check_new_ids (keys (mkdict l)) (s_ids s)
+  | RemoveVars l _ => check_known l (m_var (s_m s)) true []
+  | UpdateVars l => check_known (keys (mkdict l)) (m_var (s_m s)) false []
+  end.
+
+(** scale_parameters' roll-back: previous = {k: self._parameters[k].value for k in parameters} ...
+    for k, value in previous.items(): self._parameters[k].value = value *)
+Definition prev_values (ns : list name) (m : model) : list (name * valia) :=
+  flat_map (fun n => match lookup n (m_par m) with Some v => [(n, v)] | None => [] end) ns.
+Definition restore_pars (prev : list (name * valia)) (m : model) : model :=
+  fold_left (fun m kv => set_par m (dset (fst kv) (snd kv) (m_par m))) prev m.
+
+(** a batch method in the form the extractor found ([BatchUnknown] is refused by
+    C03_batch_facts_pinned; it is given the fold semantics so that the model stays total) *)
+Definition batch_with (mode : batch_mode) (s : st) (b : bmut) : st * outcome :=
+  match mode with
+  | BatchValidated =>
+    match validate s b with
+    | Some e => (s, Rejected e)
+    | None =>
+      match b with
+      | ScalePars l =>
+        let prev := prev_values (keys (mkdict l)) (s_m s) in
+        let '(s1, o) := run_items s (items b) in
+        match o with
+        | Accepted => (s1, o)
+        | _ => (mkSt (s_ids s1) (restore_pars prev (s_m s1)) None, o)
+        end
+      | _ => run_items s (items b)
+      end
+    end
+  | _ => run_items s (items b)
+  end.
+
+Definition run_batch (s : st) (b : bmut) : st * outcome := batch_with (batch_form (batch_of b)) s b.
+
 Definition ask (s : st) (q : query) : st * outcome :=
   match q with
   | QIds => (s, Answer (AIds (s_ids s)))
@@ -328,13 +461,19 @@ Definition ask (s : st) (q : query) : st * outcome :=
           | QIc => APairs (c_init c)
           | QParVals => APairs (c_base_par c)
           | QDerParNames => ANames (derived_parameter_names m c)
+          | QFluxes vars t =>
+            match get_fluxes FnLib.fsem FnLib.fsemN m c (opt_or vars (c_init c)) t with
+            | Val l => APairs l | Err e => AErr e end
+          | QStoich vars t =>
+            match get_stoichiometries FnLib.fsem FnLib.fsemN m c (opt_or vars (c_init c)) t with
+            | Val l => ATable l | Err e => AErr e end
           end in
       (s1, Answer ans)
     end
   end.
 
 Definition step (s : st) (o : op) : st * outcome :=
-  match o with Mut mu => mutate s mu | Ask q => ask s q end.
+  match o with Mut mu => mutate s mu | Bat b => run_batch s b | Ask q => ask s q end.
 
 Definition run_history (h : list op) : st := fold_left (fun s o => fst (step s o)) h init.
 
